@@ -708,6 +708,10 @@ class Evaluator:
         for v in n.values:
             if isinstance(v, ast.Constant):
                 parts.append(("const", v.value))
+            elif v.format_spec is not None or v.conversion not in (-1, 115, 114):
+                # a format spec / conversion may lose information: keep it distinct from the bare value
+                spec = ast.unparse(v.format_spec) if v.format_spec is not None else ""
+                parts.append(("fmt", self.ev(v.value, live), spec, v.conversion))
             else:
                 parts.append(self.ev(v.value, live))
         return ("fstr", tuple(parts))
